@@ -11,11 +11,14 @@ Open Scope string_scope.
 
 (* Any number of consecutive simulations, each with any outcome (results, rejected, failed, timed out = any prefix
    of decisions), any scheduler decisions: every cell that existed before — the cluster's nodes, their usage,
-   host-port and volume maps, deletion marks, nominations, the provider's slices, API objects — is untouched,
-   with the single exception of the pod-bookkeeping cell. *)
-Theorem simulate_writes_fresh_only : forall roots slices book h (calls : list sim_call) a,
+   host-port and volume maps, deletion marks, nominations, the provider's slices, the provider's instance types and
+   every map hanging off them (Capacity, Overhead, per-offering overrides), API objects — is untouched, with two
+   exceptions: the pod-bookkeeping cell (the finding below) and the lazily computed, still unset
+   allocatable-groups field of a provider instance type (sync.Once precompute; the computed maps are new cells). *)
+Theorem simulate_writes_fresh_only : forall roots slices types book h (calls : list sim_call) a,
   wf h -> a < next h -> a <> book ->
-  cells (simulate_all (genv roots slices book) h calls) a = cells h a.
+  let h' := simulate_all (genv roots slices types book) h calls in
+  (~ In a types -> cells h' a = cells h a) /\ same_except_l [cacheF] (cells h a) (cells h' a).
 Proof. exact simulate_writes_fresh_only_l. Qed.
 Print Assumptions simulate_writes_fresh_only.
 
@@ -23,48 +26,53 @@ Print Assumptions simulate_writes_fresh_only.
    SimulateScheduling -> Provisioner.GetPendingPods -> Cluster.MarkPodSchedulingDecisions records a scheduling
    decision for every pending pod that fails Provisioner.Validate. *)
 Theorem simulate_changes_nothing_refuted :
-  exists roots slices book h calls a,
-    wf h /\ a < next h /\ cells (simulate_all (genv roots slices book) h calls) a <> cells h a.
+  exists roots slices types book h calls a,
+    wf h /\ a < next h /\ ~ In a types /\
+    cells (simulate_all (genv roots slices types book) h calls) a <> cells h a.
 Proof. exact simulate_changes_nothing_refuted_l. Qed.
 Print Assumptions simulate_changes_nothing_refuted.
 
 (* ... and holds in full when no simulation marks a pod: no pending pod fails validation, or the call returns
    before GetPendingPods. *)
-Theorem simulate_changes_nothing_partial : forall roots slices book h (calls : list sim_call) a,
+Theorem simulate_changes_nothing_partial : forall roots slices types book h (calls : list sim_call) a,
   wf h -> a < next h ->
   Forall (fun c => pending_marks (s_outcome c) (s_rejected c) = []) calls ->
-  cells (simulate_all (genv roots slices book) h calls) a = cells h a.
+  let h' := simulate_all (genv roots slices types book) h calls in
+  (~ In a types -> cells h' a = cells h a) /\ same_except_l [cacheF] (cells h a) (cells h' a).
 Proof. exact simulate_changes_nothing_partial_l. Qed.
 Print Assumptions simulate_changes_nothing_partial.
 
-(* The scheduler proper (ExistingNode.Add, instance-type filtering and in-place sorting), any number of runs. *)
-Theorem scheduling_writes_fresh_only : forall roots slices book h (runs : list (list sop)) a,
+(* The scheduler proper (ExistingNode.Add, instance-type filtering and in-place sorting, lazy precompute), any
+   number of runs: it never writes a provider-owned map or a cluster-state cell. *)
+Theorem scheduling_writes_fresh_only : forall roots slices types book h (runs : list (list sop)) a,
   wf h -> a < next h ->
-  cells (run_all (genv roots slices book) h (map sched_ops runs)) a = cells h a.
+  let h' := run_all (genv roots slices types book) h (map sched_ops runs) in
+  (~ In a types -> cells h' a = cells h a) /\ same_except_l [cacheF] (cells h a) (cells h' a).
 Proof. exact scheduling_writes_fresh_only_l. Qed.
 Print Assumptions scheduling_writes_fresh_only.
 
 (* Provisioning passes and simulations in any mix and number: apart from the bookkeeping cell, a cell that existed
-   before differs at most in the nominatedUntil field, and only if it is one of the cluster's own nodes. *)
-Theorem provision_writes_only_nomination_and_bookkeeping : forall roots slices book h (runs : list (list sop)) a,
+   before differs at most in nominatedUntil (only the cluster's own nodes) and in the unset cache field (only
+   provider instance types). *)
+Theorem provision_writes_only_nomination_and_bookkeeping : forall roots slices types book h (runs : list (list sop)) a,
   wf h -> a < next h -> a <> book ->
-  same_except "nominatedUntil" (cells h a) (cells (run_all (genv roots slices book) h runs) a) /\
-  (~ In a roots -> cells (run_all (genv roots slices book) h runs) a = cells h a).
+  let h' := run_all (genv roots slices types book) h runs in
+  (~ In a roots -> ~ In a types -> cells h' a = cells h a) /\ same_except_l [nomF; cacheF] (cells h a) (cells h' a).
 Proof. exact provision_writes_only_nomination_and_bookkeeping_l. Qed.
 Print Assumptions provision_writes_only_nomination_and_bookkeeping.
 
-(* The same statements for every fact table in which the written-through paths are deep copies. *)
-Theorem any_deep_table_frames : forall e runs h, table_ok (e_tbl e) = true -> wf h ->
-  wf (run_all e h runs) /\ pframe e (next h) h (run_all e h runs) /\
-  (forallb (forallb is_sim_op) runs = true -> frame (next h) h (run_all e h runs)).
-Proof. exact run_all_good. Qed.
+(* The same for every fact table in which the written-through paths are deep copies, and every policy. *)
+Theorem any_deep_table_frames : forall al e runs h, table_ok (e_tbl e) = true -> wf h ->
+  Forall (Forall (permits al e)) runs ->
+  wf (run_all e h runs) /\ xframe al (next h) h (run_all e h runs).
+Proof. exact run_all_x. Qed.
 Print Assumptions any_deep_table_frames.
 
 (* The deep-copy facts are needed: a table that leaves hostPortUsage shallow lets one ExistingNode.Add write the
    cluster's own host-port map. *)
 Theorem shallow_copy_would_leak :
   exists h ops a, wf h /\ a < next h /\ forallb is_sim_op ops = true /\
-    cells (run (mkEnv shallow_table [7] [8] 0) h ops) a <> cells h a.
+    cells (run (mkEnv shallow_table [7] [8] [10] 0) h ops) a <> cells h a.
 Proof. exact shallow_copy_would_leak_l. Qed.
 Print Assumptions shallow_copy_would_leak.
 
@@ -80,33 +88,36 @@ Theorem sim_marks_only_rejected : forall o rej res now pod b,
 Proof. exact sim_marks_only_rejected_l. Qed.
 Print Assumptions sim_marks_only_rejected.
 
-(* Non-vacuity: on a concrete cluster (one node with usage objects, one provider slice) a simulation that places a
-   pod and builds a NodeClaim does write — onto the copies — and leaves every old cell as it was; the provider's
-   slice keeps its order although the new slice is sorted. *)
+(* Non-vacuity: on a concrete cluster (one node with usage objects, one provider slice, one instance type) a
+   simulation that places a pod, evaluates the instance type and builds a NodeClaim does write — onto the copies
+   and into new cells — and leaves every old cell as it was except the instance type's cache word; the provider's
+   slice keeps its order although the new slice is sorted; the Capacity map is untouched. *)
 Example sim_writes_copies_only :
-  let e := genv [7] [8] 0 in
-  let h' := simulate e demo_heap OOk [] [SAddPod 0 42%Z; SNewClaim 0 [true; true; true]] in
-  map (cells h') [0; 1; 2; 3; 4; 5; 6; 7; 8] = map (cells demo_heap) [0; 1; 2; 3; 4; 5; 6; 7; 8] /\
-  cells h' 9 = CLeaf [11%Z; 42%Z] /\                 (* the copy's reserved map received the pod *)
-  cells h' 17 = CLeaf [10%Z; 20%Z; 30%Z] /\          (* the NodeClaim's own slice, sorted *)
-  cells h' 8 = CLeaf [30%Z; 10%Z; 20%Z].
+  let e := genv [7] [8] [10] 0 in
+  let h' := simulate e demo_heap OOk [] [SAddPod 0 42%Z; SPrecompute 0; SNewClaim 0 [true; true; true]; SPrecompute 0] in
+  map (cells h') [0; 1; 2; 3; 4; 5; 6; 7; 8; 9] = map (cells demo_heap) [0; 1; 2; 3; 4; 5; 6; 7; 8; 9] /\
+  cells h' 11 = CLeaf [11%Z; 42%Z] /\                (* the copy's reserved map received the pod *)
+  cells h' 10 = CObj "InstanceType" [("Capacity", VRef (Some 9)); ("allocatableOfferings", VRef (Some 19))] /\
+  cells h' 19 = CLeaf [4000%Z; 8192%Z] /\            (* the computed allocatable: a new map, computed once *)
+  cells h' 20 = CLeaf [10%Z; 20%Z; 30%Z] /\          (* the NodeClaim's own slice, sorted *)
+  cells h' 21 = CFree.
 Proof. vm_compute. repeat split; reflexivity. Qed.
 
 Example prov_nominates_the_clusters_node :
-  let e := genv [7] [8] 0 in
+  let e := genv [7] [8] [10] 0 in
   let h' := provision e demo_heap OOk [5%Z] [SAddPod 0 42%Z] [6%Z] [(0, 99%Z)] in
   cells h' 0 = CLeaf [5%Z; 6%Z] /\
   cells h' 7 = CObj "StateNode" [("hostPortUsage", VRef (Some 2)); ("volumeUsage", VRef (Some 6));
                                  ("markedForDeletion", VInt 0); ("nominatedUntil", VInt 99)] /\
-  map (cells h') [1; 2; 3; 4; 5; 6; 8] = map (cells demo_heap) [1; 2; 3; 4; 5; 6; 8].
+  map (cells h') [1; 2; 3; 4; 5; 6; 8; 9; 10] = map (cells demo_heap) [1; 2; 3; 4; 5; 6; 8; 9; 10].
 Proof. vm_compute. repeat split; reflexivity. Qed.
 
 Example generated_table_is_deep : table_ok table = true /\ wf demo_heap.
 Proof. split; [exact generated_table_ok|exact demo_wf]. Qed.
 
 Example oracle_examples :
-  holds_b (mkObs KSim OOk 0 [] [] false true 0 0 [] [] None []) = true /\
-  holds_b (mkObs KSim OOk 0 [ClHostPorts] [] false true 0 0 [] [] None []) = false /\
-  holds_b (mkObs KProv OOk 0 [ClNominations; ClPodBookkeeping] [] false true 0 0 [] [] None []) = true /\
-  holds_b (mkObs KProv OOk 1 [ClApi] [] false true 0 0 [] [] None []) = false.
+  holds_b (mkObs KSim OOk 0 [] [] false true true 0 0 [] [] None []) = true /\
+  holds_b (mkObs KSim OOk 0 [ClHostPorts] [] false true true 0 0 [] [] None []) = false /\
+  holds_b (mkObs KProv OOk 0 [ClNominations; ClPodBookkeeping] [] false true true 0 0 [] [] None []) = true /\
+  holds_b (mkObs KProv OOk 1 [ClApi] [] false true true 0 0 [] [] None []) = false.
 Proof. vm_compute. repeat split; reflexivity. Qed.
